@@ -10,7 +10,7 @@ engine.cfront.REPO + "/rebound/units.py"); nothing is imported or copied.  Funct
 The specification side is dimensional analysis: a quantity of dimension L^a T^b M^c converts between unit systems
 by  value * (L_old/L_new)^a * (T_old/T_new)^b * (M_old/M_new)^c  (unit sizes in SI); G has dimension L^3 T^-2 M^-1.
 """
-import ast, math, itertools, os
+import ast, math, itertools, os, re
 from fractions import Fraction
 import z3
 from engine.api import Pack
@@ -159,6 +159,39 @@ def prove(v, it, st, name, goal, **meta):
     return ob
 
 
+def size_terms(goal):
+    """applications of the table selectors (`lengths_SI[](k)` ...) and G_SI occurring in a term"""
+    out, seen, stack = [], set(), [goal]
+    while stack:
+        t = stack.pop()
+        if t.get_id() in seen:
+            continue
+        seen.add(t.get_id())
+        if z3.is_app(t):
+            nm = t.decl().name()
+            if (nm.endswith("[]") and t.num_args() == 1) or (nm.startswith("G_SI") and t.num_args() == 0) or \
+                    (t.num_args() == 0 and "_SI['" in nm):
+                out.append(t)
+                continue
+            stack.extend(t.children())
+    return sorted(out, key=lambda t: str(t))
+
+
+def alg(v, it, st, name, goal, extra=()):
+    """Algebraic clause: proved from the positivity of the unit sizes it mentions (plus `extra`, each proved or assumed
+    by the caller) and nothing else -- keeps the nonlinear obligations small and solver-independent.  The positivity of
+    each size is its own obligation under the full hypotheses of the symbolic run (key is in the table => value > 0)."""
+    done = v.__dict__.setdefault("_pos_done", {})
+    hyps = []
+    for t in size_terms(z3.And(goal, *extra) if extra else goal):
+        key = (id(st), t.get_id())
+        if key not in done:
+            done[key] = True
+            prove(v, it, st, "unit_size_positive.%s" % re.sub(r"[^A-Za-z0-9_]+", "_", str(t)).strip("_"), t > 0)
+        hyps.append(t > 0)
+    return v.lemma(name, hyps + list(extra), goal)
+
+
 def cover(v, it, st, name="cover.hypotheses_satisfiable"):
     s = z3.Solver()
     s.set("timeout", 5000)
@@ -200,14 +233,14 @@ def conv_task(fname, dims, kinds):
         def size(sysname):
             return usize(U[sysname].get("l"), U[sysname].get("t"), U[sysname].get("m"))
         ab = run(x, "a", "b")
-        prove(v, it, st, "spec.dimensional", ab == dim_convert(x, dims, size("a"), size("b")))
+        alg(v, it, st, "spec.dimensional", ab == dim_convert(x, dims, size("a"), size("b")))
         abc = run(ab, "b", "c")
         ac = run(x, "a", "c")
-        prove(v, it, st, "transitive", abc == ac)
+        alg(v, it, st, "transitive", abc == ac)
         aba = run(ab, "b", "a")
-        prove(v, it, st, "inverse", aba == x)
+        alg(v, it, st, "inverse", aba == x)
         aa = run(x, "a", "a")
-        prove(v, it, st, "identity", aa == x)
+        alg(v, it, st, "identity", aa == x)
         cover(v, it, st)
     return _
 
@@ -232,15 +265,15 @@ def _(v):
     st = o.st
     gsi = it.sym_globals["G_SI"]
     one = z3.RealVal(1)
-    prove(v, it, st, "dimensional", o.value == dim_convert(gsi, DIM_G, (one, one, one), usize(l, t, m)))
+    alg(v, it, st, "dimensional", o.value == dim_convert(gsi, DIM_G, (one, one, one), usize(l, t, m)))
     L, T, M = usize(l, t, m)
-    prove(v, it, st, "closed_form", o.value * L * L * L == gsi * M * T * T)
-    prove(v, it, st, "positive", o.value > 0)
+    alg(v, it, st, "closed_form", o.value * L * L * L == gsi * M * T * T)
+    alg(v, it, st, "positive", o.value > 0)
     # changing the unit system converts G like any other quantity of its dimension
     st2 = o.st
     l2, t2, m2 = triple(it, st2, "other")
     o2 = it.call1("convert_G", [(l2, t2, m2)], st=st2)
-    prove(v, it, o2.st, "covariant", o2.value == dim_convert(o.value, DIM_G, usize(l, t, m), usize(l2, t2, m2)))
+    alg(v, it, o2.st, "covariant", o2.value == dim_convert(o.value, DIM_G, usize(l, t, m), usize(l2, t2, m2)))
     cover(v, it, o2.st)
 
 
@@ -268,16 +301,17 @@ def _(v):
     P2 = dim_convert(Pd, (0, 1, 0), usize(*u1), usize(*u2))
     law1 = Pd * Pd * G1 * M == 4 * pi * pi * a * a * a
     st.pc.append(law1)
-    prove(v, it, st, "kepler3", P2 * P2 * G2 * M2 == 4 * pi * pi * a2 * a2 * a2)
+    phys = [law1, a > 0, M > 0, Pd > 0]
+    alg(v, it, st, "kepler3", P2 * P2 * G2 * M2 == 4 * pi * pi * a2 * a2 * a2, phys)
     acc1 = G1 * M / (a * a)
     acc2 = run("convert_acc", [acc1, u1[0], u1[1], u2[0], u2[1]])
-    prove(v, it, st, "newton_acceleration", acc2 * a2 * a2 == G2 * M2)
+    alg(v, it, st, "newton_acceleration", acc2 * a2 * a2 == G2 * M2, phys)
     v1 = 2 * pi * a / Pd
     v2 = run("convert_vel", [v1, u1[0], u1[1], u2[0], u2[1]])
-    prove(v, it, st, "circular_speed", v2 * P2 == 2 * pi * a2)
+    alg(v, it, st, "circular_speed", v2 * P2 == 2 * pi * a2, phys)
     # vis-viva energy per unit mass  v^2/2 - G M / a  has dimension L^2 T^-2
     e1 = v1 * v1 / 2 - G1 * M / a
-    prove(v, it, st, "specific_energy", v2 * v2 / 2 - G2 * M2 / a2 == dim_convert(e1, (2, -2, 0), usize(*u1), usize(*u2)))
+    alg(v, it, st, "specific_energy", v2 * v2 / 2 - G2 * M2 / a2 == dim_convert(e1, (2, -2, 0), usize(*u1), usize(*u2)), phys)
     cover(v, it, st)
 
 
@@ -584,7 +618,7 @@ def _(v):
     v.ground("single_normal_path", len(outs) == 1 and outs[0].kind == "return", str([(o.kind, o.value) for o in outs]))
     o = outs[0]
     one = z3.RealVal(1)
-    prove(v, it, o.st, "G_recomputed", o.attr(this, "G") == dim_convert(it.sym_globals["G_SI"], DIM_G, (one, one, one), usize(l, t, m)))
+    alg(v, it, o.st, "G_recomputed", o.attr(this, "G") == dim_convert(it.sym_globals["G_SI"], DIM_G, (one, one, one), usize(l, t, m)))
     prove(v, it, o.st, "hash_l", o.attr(this, "python_unit_l") == REBHASH(l))
     prove(v, it, o.st, "hash_t", o.attr(this, "python_unit_t") == REBHASH(t))
     prove(v, it, o.st, "hash_m", o.attr(this, "python_unit_m") == REBHASH(m))
@@ -613,7 +647,7 @@ def _(v):
         for o in outs:
             if o.kind == "return":
                 prove(v, it, o.st, tag + ".only_when_empty", o.attr(this, "N") <= 0)
-                prove(v, it, o.st, tag + ".G", o.attr(this, "G") == dim_convert(it.sym_globals["G_SI"], DIM_G, (one, one, one),
+                alg(v, it, o.st, tag + ".G", o.attr(this, "G") == dim_convert(it.sym_globals["G_SI"], DIM_G, (one, one, one),
                                                                               usize(low["l"], low["t"], low["m"])))
                 prove(v, it, o.st, tag + ".hashes", z3.And(o.attr(this, "python_unit_l") == REBHASH(low["l"]),
                                                            o.attr(this, "python_unit_t") == REBHASH(low["t"]),
@@ -675,17 +709,18 @@ def _(v):
         for f in dbl:
             init = z3.Real("p0.%s0" % f)
             if f in DIMS:
-                prove(v, it, o.st, "%s.member.%s" % (tag, f), o.attr(p0, f) == dim_convert(init, DIMS[f], usize(*old), usize(*newt)))
+                alg(v, it, o.st, "%s.member.%s" % (tag, f), o.attr(p0, f) == dim_convert(init, DIMS[f], usize(*old), usize(*newt)))
             else:
                 v.ground("%s.untouched.%s" % (tag, f), ("p0", f) not in o.st.writes and o.attr(p0, f).eq(init), "not written")
         wp = sorted({a for (ob_, a) in o.st.writes if ob_ == "p0"})
         v.ground(tag + ".particle_frame", wp == sorted(DIMS), "particle attributes written: %s" % wp)
         ws = sorted({a for (ob_, a) in o.st.writes if ob_ == "self"})
         v.ground(tag + ".sim_frame", ws == ["G", "python_unit_l", "python_unit_m", "python_unit_t"], "simulation attributes written: %s" % ws)
-        prove(v, it, o.st, tag + ".G", o.attr(this, "G") == dim_convert(it.sym_globals["G_SI"], DIM_G, (one, one, one), usize(*newt)))
+        alg(v, it, o.st, tag + ".G", o.attr(this, "G") == dim_convert(it.sym_globals["G_SI"], DIM_G, (one, one, one), usize(*newt)))
         prove(v, it, o.st, tag + ".hashes", z3.And(o.attr(this, "python_unit_l") == REBHASH(new["l"]),
                                                    o.attr(this, "python_unit_t") == REBHASH(new["t"]),
                                                    o.attr(this, "python_unit_m") == REBHASH(new["m"])))
+        cover(v, it, o.st, tag + ".cover")
         if p == ("l", "t", "m"):
             # and back: reversible
             st2 = o.st
@@ -698,9 +733,15 @@ def _(v):
             outs2 = it.call("convert_particle_units", [this, old[1], old[2], old[0]], st=st2, cls="Simulation")
             v.ground("roundtrip.single_normal_path", len(outs2) == 1 and outs2[0].kind == "return", str([(x.kind, x.value) for x in outs2]))
             o2 = outs2[0]
+            # check_units lower-cases the names it is given: for table keys that is the identity
+            lo = tuple(LOWER(q) for q in old)
+            loeq = []
+            for nm, q, ql in zip("ltm", old, lo):
+                prove(v, it, o2.st, "roundtrip.lower_of_key_is_key." + nm, ql == q)
+                loeq.append(ql == q)
             for f in DIMS:
-                prove(v, it, o2.st, "roundtrip.member.%s" % f, o2.attr(p0, f) == z3.Real("p0.%s0" % f))
-            prove(v, it, o2.st, "roundtrip.G", o2.attr(this, "G") == dim_convert(it.sym_globals["G_SI"], DIM_G, (one, one, one), usize(*old)))
+                alg(v, it, o2.st, "roundtrip.member.%s" % f, o2.attr(p0, f) == z3.Real("p0.%s0" % f), loeq)
+            alg(v, it, o2.st, "roundtrip.G", o2.attr(this, "G") == dim_convert(it.sym_globals["G_SI"], DIM_G, (one, one, one), usize(*lo)))
             cover(v, it, o2.st, "roundtrip.cover")
     # units not set -> AttributeError, nothing written
     st = pysym.State()
